@@ -2,7 +2,8 @@
 // against the exact model. Loop bounds, unrolled kernels, tabulated constants
 // and array sizes that only matter far above the orders the other drivers
 // sweep (0..8) are reached here. Tags: C02 evaluation, C03 arithmetic, C04
-// primitive operators, C06 bilinear forms, C07 linear forms.
+// primitive operators, C05 operator expressions, C06 bilinear forms, C07
+// linear forms.
 #include "lib.h"
 #include "scalar.h"
 
@@ -91,6 +92,23 @@ void highCase(Ctx &c, Rng &g) {
     spl("C04", "X<5>", X<5>{} * s, model::dmulx(ds, 5), absMulX(as, 5, pts));
     spl("C04", "X<1>", X<1>{} * s, model::dmulx(ds, 1), absMulX(as, 1, pts));
     spl("C04", "X<2>", X<2>{} * s, model::dmulx(ds, 2), absMulX(as, 2, pts));
+    // ---- C05 operator expressions with high derivatives inside
+    spl("C05", "expr-Dx2*Dx<order-2>", (Dx<2>{} * Dx<o - 2>{}) * s, model::dderiv(ds, o),
+        absDeriv(as, o));
+    spl("C05", "expr-commutator-Dx<order-1>-X",
+        (Dx<o - 1>{} * X<1>{} - X<1>{} * Dx<o - 1>{}) * s,
+        model::dsub(model::dderiv(model::dmulx(ds, 1), o - 1),
+                    model::dmulx(model::dderiv(ds, o - 1), 1)),
+        absAdd(absDeriv(absMulX(as, 1, pts), o - 1), absMulX(absDeriv(as, o - 1), 1, pts)));
+    {
+      const R c5 = genScalar(g, dyadic);
+      spl("C05", "expr-c*Dx<half>+X", (mk<T>(c5) * Dx<(o + 1) / 2>{} + X<1>{}) * s,
+          model::dadd(model::dscale(model::dderiv(ds, (o + 1) / 2), c5), model::dmulx(ds, 1)),
+          absAdd(absScale(absDeriv(as, (o + 1) / 2), c5), absMulX(as, 1, pts)));
+      spl("C05", "expr-neg-Dx<order-1>/2", (-Dx<o - 1>{} / 2) * s,
+          model::dscale(model::dderiv(ds, o - 1), R(-1) / 2),
+          absScale(absDeriv(as, o - 1), R(1) / 2));
+    }
     // ---- C03 arithmetic
     spl("C03", "add", s + q, model::dadd(ds, dq), absAdd(as, aq));
     spl("C03", "add-commuted", q + s, model::dadd(ds, dq), absAdd(as, aq));
